@@ -174,6 +174,18 @@ func checkC15(c *fw.Ctx) {
 		}, 1)
 	}
 	if fn := mustFunc(c, "3 send_join", "HandleSendJoin"); fn != nil {
+		// memberships are keyed by the sender ID of the room (a pseudo ID in pseudo-ID rooms):
+		// the ban / already-joined lookup must use the event's sender ID, not the resolved user ID
+		for _, dc := range deepCallsTo(fn, func(n string) bool { return strings.HasSuffix(n, ".CurrentMembership") }) {
+			args := dc.Call.Common().Args
+			if len(args) == 0 {
+				continue
+			}
+			key := args[len(args)-1]
+			c.CheckDerives(key, dc.Fr, fw.FlowSpec{IsSource: fw.IsResultOf(func(n string) bool { return strings.HasSuffix(n, ".SenderID") }, -1)}, "3 send_join",
+				"HandleSendJoin looks the joiner's membership up under the event's sender ID", c.P.Pos(dc.Call.Pos()), "",
+				"CurrentMembership is queried with "+fw.SigIn(dc.Fr, key)+", not with the event's sender ID: in pseudo-ID rooms the membership (a ban) is recorded under the pseudo ID and the lookup misses it")
+		}
 		vj := "(gmsl.JSONVerifier).VerifyJSONs("
 		requireOnSuccess(c, "3 send_join", "HandleSendJoin", fn, []need{
 			nd("a known room version", true, "gmsl.GetRoomVersion(*&param:input.RoomVersion)#1 == nil)"),
